@@ -17,6 +17,8 @@ RULE = ("A zoo transform, a flow over it (StandardNormal / ConditionalDiagonalNo
         "pre-call clone; evaluation mode: every state_dict entry bit-identical after the sequence and the same call repeated "
         "under the same RNG seed returns bit-identical results; training mode: only running_mean / running_var / "
         "num_batches_tracked and ActNorm's first-forward initialisation (log_scale, shift, initialized) may change. "
+        "After the sequence the used object must answer like never-called deep copies on another batch size and, for trees of "
+        "elementwise layers, on events with an extra leading dimension. "
         "Non-trivial: the object has parameters or buffers and >= 2 different methods are called. Distinct = distinct JSON.")
 ASSUMPTIONS = ["a call that raises on an exotic presentation (e.g. .view on a non-contiguous input) is not a C13 violation; the "
                "before/after comparison is still made", "the linear cache is neither parameter nor buffer"]
@@ -61,6 +63,18 @@ def _case(draw):
 
 def case_strategy(tier):
     return _case()
+
+
+ELEMENTWISE = ("identity", "paffine", "exp", "tanh", "logtanh", "leakyrelu", "sigmoid", "logit", "cauchycdf", "inv_exp", "inv_tanh")
+
+
+def _elementwise_only(spec):
+    t = spec["t"]
+    if t == "composite":
+        return all(_elementwise_only(p) for p in spec["parts"])
+    if t == "inverse":
+        return _elementwise_only(spec["of"])
+    return t in ELEMENTWISE
 
 
 def _bits(t):
@@ -232,10 +246,15 @@ def run_case(case):
         # another batch size and - where the transform is shape-agnostic - another event shape
         if case["mode"] == "eval" and kind == "transform" and not raised:
             probes = [torch.cat([X0, X0.flip(0)], 0)[: n + 1 + (case["seed"] % 2)]]
-            if case["spec"]["t"] in ("identity", "paffine", "exp", "tanh", "logtanh", "leakyrelu", "sigmoid", "cauchycdf") and \
-                    not isinstance(case["spec"].get("scale"), list):
-                probes.append(torch.randn([2, 3, 2], generator=g) if case["dom"] == "R" else torch.rand([2, 3, 2], generator=g))
+            if _elementwise_only(case["spec"]) and C0 is None:
+                # elementwise maps broadcast over leading event dimensions: events of shape [3, *event] built from the same values
+                # (a scalar- or vector-parameterised layer shared between inputs of several shapes)
+                idx = (torch.arange(n)[:, None] + torch.arange(3)[None, :]) % n
+                probes.append(X0.detach()[idx].contiguous())
+                res.labels.append("other_event_shape_probe")
+            pristine0 = pristine
             for P in probes:
+                pristine = copy.deepcopy(pristine0)      # every probe gets its own never-called copy
                 Cp = None
                 if C0 is not None:
                     if P.dim() != X0.dim() or list(P.shape[1:]) != list(X0.shape[1:]):
